@@ -408,6 +408,19 @@ def Linked (s : Nat → Option Nat) : List Nat → Prop
   | _ => True
 
 
+/-- The cut graph as a list, computed once (`nxt_cutList`: `nxt (cutList g) = cutNxt g`). -/
+def cutList (g : List (Nat × Nat)) : List (Nat × Nat) := g.filter (fun e => !isCut g e.1)
+
+/-- Follow a list-represented graph. -/
+def chainL (cl : List (Nat × Nat)) : Nat → Nat → List Nat
+  | 0, _ => []
+  | n + 1, c => match nxt cl c with
+    | none => []
+    | some d => d :: chainL cl n d
+
+/-- `nlGet` with the cut graph precomputed (`nlGetFast_eq`); what the driver evaluates. -/
+def nlGetFast (g cl : List (Nat × Nat)) (c : Nat) : List Nat := chainL cl (g.length + 1) c
+
 /-- `InfiniteLoop` warnings: `(original, next_larger)` for every cut, ascending. -/
 def nlLoops (g : List (Nat × Nat)) (maxChar : Nat) : List (Nat × Nat) :=
   (List.range (maxChar + 1)).filterMap (fun c =>
